@@ -34,7 +34,7 @@ CHECKS = {
         "exhaustive enumeration of clips on a 1/16 s lattice over real PCM-16 WAV files (rates, channels, time expansions), rate pairs x lengths for resample, window/hop (whole and fractional samples) for spectrograms, against frames read back with the standard-library wave module",
         "Real WAV files with integer ramps are written per worker; for the 8/10 Hz files every (start, end) on the 1/16 s lattice from 0 to 1.5 x file length (on/off sample boundaries, zero-length, reaching and starting past EOF), boundary sets for the other rates, x channels {1,2,3} x time expansion {1,2,10,1/2}: "
         "exact frame count floor(duration x samplerate), frame values from floor(start x samplerate) zero-filled past EOF, frame times, equality with load_recording; for load_recording, load_clip, resample and compute_spectrogram: axes strictly increasing, starting at the source start, within one advertised step of first + i x step, coordinates matching the data length.",
-        "floor() clauses are judged only where the double product is exact or farther than 2^-24 sample from an integer (counted vacuous otherwise). Default spectrogram options only. resample has no length oracle in the property.",
+        "floor() clauses are judged only where the double product is exact or farther than 2^-24 sample from an integer (counted vacuous otherwise). Spectrograms with default options and with boundary=None; 16-bit and one 32-bit PCM file. resample has no length oracle in the property.",
         "DESIGN.md 4/C15",
     ),
     "C10": (
@@ -142,14 +142,14 @@ CHECKS = {
         "exhaustive enumeration of all labelled graphs on <= 6 (quick) / <= 7 (thorough) nodes on the real group_sound_events against union-find",
         "Every labelled undirected graph on n = 0..6 nodes (33 868; thorough adds all 2 097 152 graphs on 7 nodes) is realised as sound events + a recording comparison function; "
         "partition, order, connected components (union-find), empty input, result type and the exact set of comparison calls are checked on each.",
-        "Graphs above 7 nodes and the property's 'random larger graphs' clause (sampling, another family) are not covered. Duplicate objects in the input are outside the statement.",
+        "Above 7 events only the listed members of the big block are run (cliques, paths, a star, and a fixed list of 80 labelled trees on 32 / 48 events); the property's 'random larger graphs' clause (sampling, another family) is not the deciding step. Duplicate objects in the input are outside the statement.",
         "DESIGN.md 4/C13",
     ),
     "C14": (
         "exhaustive product over a dyadic lattice of clip start/length/duration/hop/flag on the real segment_clip against a Fraction window model",
         "Full product clip start x length x duration x hop (incl. None) x include_incomplete on a dyadic lattice, plus all non-positive duration/hop combinations; "
         "windows must equal the Fraction model exactly (order, bounds), ids must be deterministic / distinct / parent-dependent, coverage holds when hop <= duration.",
-        "Dyadic lattice only (float arithmetic exact); zero-length parent with include_incomplete is not defined by the statement and not judged.",
+        "Exact comparison on a dyadic lattice (float arithmetic exact) plus one block of decimal hops / durations judged to 4 ulp of the exact lattice point; zero-length parent with include_incomplete is not defined by the statement and not judged.",
         "DESIGN.md 4/C14",
     ),
     "C12": (
